@@ -1,6 +1,6 @@
 """C03 — label references: bookkeeping / ordering clauses (DESIGN.md section 3 / C03)."""
 import re
-from lib import cfg, core, labelvalid, pcrel
+from lib import cfg, core, labelvalid, pcrel, narrow, relocrules
 from lib.cfg import forward
 from lib.must import Must, branch_atoms
 
@@ -134,6 +134,17 @@ def run(chk):
     # ---------------------------------------------------------------- C03.e' pc-relative displacements account for the trailing immediate
     fx = chk.facts("asmjit/x86/x86assembler.cpp", funcs=r"x86::Assembler::_emit$")
     pcrel.run(chk, cfg.find_fn(fx, "x86::Assembler::_emit"), "asmjit/x86/x86assembler.cpp")
+    pcrel.run_position(chk, cfg.find_fn(fx, "x86::Assembler::_emit"), "asmjit/x86/x86assembler.cpp")
+
+    # ---------------------------------------------------------------- displacement codec never truncates silently (shared with C17.e)
+    fcw = chk.facts("asmjit/core/codewriter.cpp", funcs=r"asmjit::CodeWriterUtils::(encode_offset32|encode_offset64|write_offset)$")
+    narrow.run(chk, [cfg.Fn(fo) for fo in fcw["functions"]], floor=2)
+
+    # ---------------------------------------------------------------- a label relocation takes offset and section from one label entry
+    em = []
+    for unit, rex in (("asmjit/x86/x86assembler.cpp", r"x86::Assembler::_emit$"), ("asmjit/core/assembler.cpp", r"BaseAssembler::(embed_label|embed_label_delta)$")):
+        em += cfg.load_functions(chk.facts(unit, funcs=rex))
+    relocrules.target_pair(chk, em)
 
     return chk.finish(
         level="other",
